@@ -170,6 +170,24 @@ def check(run: Run) -> None:
                 run.report("C17/assign-not-local", {**c.describe(), "ops": [{"op": f"assign field {f._name}", "data": data.hex(), "observed": f"bytes {outside[:8]} changed (dump {after.hex()})",
                            "expected": f"only bytes [{lo}, {hi}) may change (dump before: {before.hex()})"}]})
 
+    # the TEMPLATES themselves (what _codegen compiles for a field count, before any patching) are the model's templates over _0 .. _{n-1}
+    from dissect.cstruct.types import structure as _S
+    tconst = lambda c: "CNone" if c is None else f"(CInt {cnat(c)})"  # noqa: E731
+    for n in range(1, 9 if not thorough else 17):
+        try:
+            parsed = [("eq", "make_eq", M.read_eq(_S._make__eq__(n))), ("bool", "make_bool", M.read_bool(_S._make__bool__(n))),
+                      ("hash", "make_hash", M.read_hash(_S._make__hash__(n))), ("init", "make_init", M.read_init(_S._make_structure__init__(n), tconst)),
+                      ("union-init", "make_union_init", M.read_union_init(_S._make_union__init__(n), tconst))]
+        except M.Shape as e:
+            failures += 1
+            run.report("C17/generated-code-shape", {"definition": f"templates for {n} fields", "ops": [{"op": "read the byte code of the templates", "observed": str(e),
+                       "expected": "the shape the templates of structure.py compile to (vf/methodsrc.py)"}]})
+            continue
+        for kind, mk, pc in parsed:
+            coq = f"code_eqb Z Z.eqb (template Z ({mk} Z) {cnat(n)}) {M.code_term(pc)}"
+            meth_checks.append(coq)
+            meth_meta.append({"kind": "template-" + kind, "what": f"template of __{kind}__ for {n} fields", "coq": coq,
+                              "observed": f"names {pc['names']}, consts {pc['consts']}, varnames {pc['varnames']}, body {pc['body']}", "definition": f"_make_*({n})", "type": "-"})
     res, errs = run_shards("C17m", ["Definition checks : list bool := [\n" + ";\n".join("  " + x for x in meth_checks[i:i + 150]) + "\n]." for i in range(0, len(meth_checks), 150)]
                            or ["Definition checks : list bool := []."], "Model.Methods")
     for e in errs:
